@@ -50,6 +50,18 @@ def cauchy_ray_reference(c):
     return max(alpha, 0.0) * d * (1.0 - 1e-9)
 
 
+def tiny_gradient_at(c, s):
+    """the same exit test evaluated at the step the solver returned: the free variables are those not held by a bound
+    against the gradient of the model there; true when |projected gradient|^2 <= 10 eps n max(1, |projected gradient|),
+    i.e. the conjugate gradients stopped (possibly after a restart) because what is left of the gradient is below the
+    ABSOLUTE slack of the descent test"""
+    g = c["g"] + c["H"] @ s
+    xl, xu = np.minimum(c["xl"], 0.0), np.maximum(c["xu"], 0.0)
+    free = ((s > xl) | (g < 0)) & ((s < xu) | (g > 0))
+    gf = np.where(free, g, 0.0)
+    return bool(float(gf @ gf) <= 10.0 * EPS * c["n"] * max(1.0, float(np.linalg.norm(gf))))
+
+
 def tiny_gradient(c):
     """the solver's own exit test at its first iteration: |projected gradient|^2 <= 10 eps n max(1, |projected gradient|)"""
     g = c["g"]
@@ -383,7 +395,8 @@ def run(chk, rng, replay=None):
         before = len(chk.violations)
         chk.violation({"property": "C16", "kind": "spec-fails-on-implementation", "case": subgen.case_json(c), "step": [float(v) for v in s], "failure": what,
                        "explain": "call the solver named in case['kind'] with these arguments (harness/subgen.py call); the returned step is worse than not moving / than the reference step in the named sense",
-                       "signature": {"failure": what.split(" ")[0].rstrip(":"), "solver": c["kind"], "tiny_gradient": bool(tiny), "zero_step": bool(not np.any(s))}})
+                       "signature": {"failure": what.split(" ")[0].rstrip(":"), "solver": c["kind"], "tiny_gradient": bool(tiny), "zero_step": bool(not np.any(s)),
+                                     "tiny_gradient_at_step": bool(c["kind"] == "tangential" and tiny_gradient_at(c, s))}})
         reported += len(chk.violations) - before
     if not fails and cmism:
         c, what = cmism[0]
